@@ -1,6 +1,6 @@
 (* TotalProofs.v — lemmas for C09 (see Total.v for what is and is not modelled). *)
 From Coq Require Import String Ascii ZArith List Bool Lia Arith Wf_nat.
-From BP Require Import Re TotalBase Schema Total.
+From BP Require Import Re ReLinear TotalBase Schema Total.
 From BPGen Require Import GenC09.
 Import ListNotations.
 
@@ -583,6 +583,25 @@ Qed.
    no index into a possibly empty piece, no .group() on a possibly-None match *)
 Lemma name_funcs_total : name_funcs_unguarded = [].
 Proof. reflexivity. Qed.
+
+(* every regex applied to user text is flat (no nested / ambiguous quantifier) *)
+Lemma regexes_flat : regexes_not_flat = [].
+Proof. vm_compute. reflexivity. Qed.
+
+Lemma regex_table_polynomial :
+  forall e, In e all_regexes ->
+    exists alts, flatten (snd e) = Some alts /\
+      forall a s, In a alts ->
+        (fst (bt a s) <= (length a + 1) * (length s + 2) ^ nstars a)%nat.
+Proof.
+  intros e He. pose proof regexes_flat as H. unfold regexes_not_flat, non_flat in H.
+  destruct (is_flat (snd e)) eqn:E.
+  - unfold is_flat in E. destruct (flatten (snd e)) as [alts|]; [|discriminate].
+    exists alts. split; [reflexivity|]. intros a s _. apply bt_steps_poly.
+  - assert (Hin : In e (filter (fun e => negb (is_flat (snd e))) all_regexes))
+      by (apply filter_In; split; [exact He|rewrite E; reflexivity]).
+    apply (in_map (fun e => fst (fst e))) in Hin. rewrite H in Hin. destruct Hin.
+Qed.
 
 (* ====================================================================================== *)
 (* 9. reading sources                                                                      *)
